@@ -6,7 +6,7 @@ From Coq Require Import List ZArith QArith Qround Bool.
 From PV Require Import lib.Sx lib.Str lib.Result lib.Dec.
 From PV Require Import model.Base spec.SpecBase model.TimeWrite spec.SpecTimeW proofs.TimeWriteFacts.
 From PV Require model.Langs spec.SpecTimeSamiDoc proofs.TimeSamiDocFacts proofs.TimeFloatFacts.
-From PV Require model.DfxpWriteDoc model.XmlRead spec.SpecXmlDoc proofs.DfxpWriteDocFacts.
+From PV Require model.DfxpWriteDoc model.XmlRead spec.SpecXmlDocT proofs.DfxpWriteDocFacts.
 Import ListNotations.
 Open Scope Z_scope.
 
@@ -280,7 +280,7 @@ Proof. exact TimeFloatFacts.rounds_like_id. Qed.
    (compared with the real writer character by character on every run: request 207).  XmlRead.dfxp_read_string = the
    string-level model of DFXPReader (C01_dfxp_string_exact).  floor_cue c = (start, end) floored to the millisecond. *)
 Module DfxpDocument.
-Import model.DfxpWriteDoc model.XmlRead spec.SpecXmlDoc proofs.DfxpWriteDocFacts.
+Import model.DfxpWriteDoc model.XmlRead spec.SpecXmlDocT proofs.DfxpWriteDocFacts.
 Open Scope Z_scope.
 
 (* the written document is a well-formed rendering of an abstract document (hence parses: C01_dfxp_text_to_tree) *)
